@@ -522,6 +522,33 @@ def _bookkeeping(ctx):
             if N.txt(tgt) == 'self._state':
                 ctx.ob('C08.6', func, node, N.txt(val) == st,
                        'state takes the requested value')
+    # OWNER: the (state, since) pair is written by Node.set_state alone
+    # (and the constructor) - an override or a helper that stores `since`
+    # on its own restarts the retention clock without a state change
+    for cls in index.module(K.SCHED).classes.values():
+        for meth in cls.live_methods():
+            if meth is func or meth.name == '__init__':
+                continue
+            for sub in K.walk_no_nested(meth.node):
+                tgts = []
+                if isinstance(sub, ast.Assign):
+                    tgts = sub.targets
+                elif isinstance(sub, (ast.AugAssign, ast.AnnAssign)):
+                    tgts = [sub.target]
+                for tgt in tgts:
+                    for leaf in ast.walk(tgt):
+                        if isinstance(leaf, ast.Attribute) and \
+                                leaf.attr in ('_state', '_state_since') and \
+                                isinstance(leaf.ctx, ast.Store):
+                            ctx.fail('C08.6', meth, sub,
+                                     '%s is stored outside Node.set_state: '
+                                     'the recorded `since` no longer means '
+                                     '"since the last state change"' %
+                                     leaf.attr,
+                                     construct='%s owner' % leaf.attr)
+    ctx.ob('C08.6', func, None, True,
+           '_state / _state_since are stored by Node.set_state (and '
+           'constructors) only', construct='state pair owner')
     master = index.get_class(K.MASTER, 'Master')
     _pending_start(ctx, master, nz)
     fr = master.methods.get('_freeze_server')
